@@ -254,25 +254,59 @@ def run(ctx: Ctx, tier: str) -> Result:
             res.ok("C08.AUTH", {"request": norm(c.func), "metadata": norm(m_), "at": fi.loc(c)})
         else:
             res.fail(Finding("C08.AUTH", fi.qname, c, fi.loc(c), "the %s request is sent without metadata=GRPCService.metadata(): no auth header" % c.func.attr))
-    bm = gs.lookup("_build_metadata")
-    tb = Table(ctx, bm)
-    provs = [k for k in tb.vars.enums if None in tb.vars.enums[k] and "get_provider" in k]
-    if len(provs) == 1:
-        PV = provs[0]
-        rv = Vars(); rv.enum(PV, None)
-
-        def refm(w):
-            if w.enum[PV] is None:
-                return lambda got: got[0] == "return"
-            return lambda got: got[0] == "return" and isinstance(got[1], str) and got[1] == "%s.provide()" % PV
-        table_rule(res, "C08.AUTH", tb, rv, refm, "configured provider -> its provide() result")
-    else:
-        res.fail(Finding("C08.AUTH", bm.qname, "<provider is not None>", bm.loc(), "_build_metadata does not consult AuthProvider.get_provider"))
+    # metadata(): what the configured provider provides, or nothing without a provider; computed before it is cached
+    GP = "deep.api.auth.AuthProvider.get_provider"
     mt = Table(ctx, md)
-    cache_ok = all(r.kind == "return" and norm(r.result).endswith("._metadata") for r in mt.rows) and \
-        any("_build_metadata()" in norm(v) for sf, v, _ in t.field_stores(gs, "_metadata") if sf is md)
-    if cache_ok:
-        res.ok("C08.AUTH", {"metadata()": "cached result of _build_metadata()"})
+    fld_ret = {norm(r.result) for r in mt.rows if r.kind == "return" and r.result is not None}
+    need(len(fld_ret) == 1 and list(fld_ret)[0].lstrip("@").startswith("self."), "metadata() does not return one cache field: %s" % sorted(fld_ret))
+    fld = list(fld_ret)[0].split(".", 1)[1]
+    stores = [(sf, v) for sf, v, _ in t.field_stores(gs, fld) if sf.name != "__init__" and v is not None]
+    need(stores, "GRPCService.%s is never filled" % fld)
+    alts = set()
+    def split(n):
+        if isinstance(n, ast.IfExp):
+            return split(n.body) + split(n.orelse)
+        return [norm(n)]
+    for sf, v in stores:
+        for xn in ctx.expand.expand_nodes(v, sf):
+            alts.update(split(xn))
+    prov_alt = [x for x in alts if x.startswith(GP + "(") and x.endswith(").provide()")]
+    other = sorted(x for x in alts if x not in prov_alt and x != "[]")
+    if prov_alt and not other:
+        res.ok("C08.AUTH", {"metadata() caches": sorted(alts)})
     else:
-        res.fail(Finding("C08.AUTH", md.qname, "<return cached _build_metadata()>", md.loc(), "metadata() does not return the (cached) result of _build_metadata()"))
+        res.fail(Finding("C08.AUTH", md.qname, "<metadata value>", md.loc(), "metadata() is not the configured provider's provide() result (or [] without a provider): %s" % sorted(alts)))
+    # provider decision: provide() iff a provider is configured
+    dec_fns = [f for lst in gs.methods.values() for f in lst
+               if any(GP in [x.qname for x in t.resolve_call(c, f).repo] for c in t.calls_in(f))]
+    need(len(dec_fns) == 1, "expected one GRPCService method consulting AuthProvider.get_provider, found %d" % len(dec_fns))
+    bm = dec_fns[0]
+    provide_calls = [c for c in t.calls_in(bm) if isinstance(c.func, ast.Attribute) and c.func.attr == "provide"]
+    okp = bool(provide_calls)
+    for c in provide_calls:
+        conds = [(norm(cc), pol) for cc, pol in paths.conditions(p, c, bm)]
+        recv = norm(c.func.value)
+        if not any((txt == "%s is not None" % recv and pol) or (txt == "%s is None" % recv and not pol) for txt, pol in conds):
+            # conditional expression form
+            par = p.parent_of(c)
+            while par is not None and not isinstance(par, (ast.IfExp, ast.stmt)):
+                par = p.parent_of(par)
+            if not (isinstance(par, ast.IfExp) and norm(par.test) in ("%s is not None" % recv, "%s is None" % recv)):
+                okp = False
+    if okp:
+        res.ok("C08.AUTH", {"provider asked in": bm.qname})
+    else:
+        res.fail(Finding("C08.AUTH", bm.qname, "<provider is not None -> provide()>", bm.loc(), "the provider's provide() is not called exactly when a provider is configured"))
+    # computed before cached: a value stored into the cache field while the provider has still to be asked stays
+    # cached when the provider fails (or is read by another thread meanwhile): later requests go out without auth
+    for sf, v in stores:
+        st = paths.stmt_of(p, v)
+        later = [c for c in t.calls_in(sf) if (GP in [x.qname for x in t.resolve_call(c, sf).repo]
+                                               or (isinstance(c.func, ast.Attribute) and c.func.attr == "provide"))
+                 and not paths.within(p, c, st) and paths.dominates(p, st, c, sf)]
+        if later:
+            res.fail(Finding("C08.AUTH", sf.qname, st, sf.loc(st), "the metadata cache is assigned before the auth provider has been asked (%s follows): if the provider "
+                             "fails once, or another thread reads meanwhile, requests are sent with the placeholder and no credentials" % norm(later[0])[:60]))
+        else:
+            res.ok("C08.AUTH", {"cache assigned after the provider was asked": norm(st)[:70]})
     return res
